@@ -125,6 +125,7 @@ impl AdjacencyMatrix {
     @after `let order = self.order();`
         proof {
             assert(order * (order - 1) == order * order - order) by (nonlinear_arith) requires order >= 1;
+            assert((order - 1) * order == order * (order - 1)) by (nonlinear_arith) requires order >= 1;  // robust against commuted operands
             lemma_cells_bridge(*self);
             lemma_pair_count(*self);
             lemma_semicomplete_rows(*self);
@@ -154,6 +155,7 @@ impl AdjacencyMatrix {
     @after `let order = self.order();`
         proof {
             assert(order * (order - 1) == order * order - order) by (nonlinear_arith) requires order >= 1;
+            assert((order - 1) * order == order * (order - 1)) by (nonlinear_arith) requires order >= 1;  // robust against commuted operands
             lemma_cells_bridge(*self);
             lemma_pair_count(*self);
             lemma_tournament_rows(*self);
